@@ -261,12 +261,19 @@ func (c *Ctx) Report(f *Finding, mk func() *Case) (known bool) {
 		c.Broken("no evaluator for case kind %q", cs.Kind)
 		return false
 	}
+	// confirmation: the replayable case must yield a finding of the same discrepancy class five times in a row
+	// (the detail text may vary, e.g. when the defect itself keeps state between calls; that is noted)
+	varied := false
 	for i := 0; i < 5; i++ {
 		g := ev(cs)
-		if g == nil || g.Class != f.Class || g.Detail != f.Detail {
+		if g == nil || g.Class != f.Class {
 			c.Broken("finding did not reproduce through the replay evaluator (run %d): first=%+v again=%+v case=%s", i, f, g, mustJSON(cs))
 			return false
 		}
+		varied = varied || g.Detail != f.Detail
+	}
+	if varied {
+		f = &Finding{Class: f.Class, Subject: f.Subject, Detail: f.Detail + " [the detail text varied between the five confirmation runs: the behaviour depends on earlier calls in the same process]"}
 	}
 	c.R.Violations = append(c.R.Violations, &Violation{Property: c.Property, Finding: f, Case: cs})
 	return false
